@@ -202,8 +202,45 @@ def add_landmarks(rng, case):
     return case
 
 
+# binary exponents by which whole weight tables are multiplied.  Multiplication by a power of two is exact in
+# binary64 and the specification is scale-free (Dijkstra_Scale.v: sp (c*w) = c * sp w), so the model keeps the
+# integer table and only the encoding changes.  At 2^-40 .. 2^-70 the weights (and all their differences) are below
+# any "rounding noise" constant such as 1e-12, 1e-9 or DBL_EPSILON while being far apart relatively: an ABSOLUTE
+# tolerance in a relax / pop / stale-entry comparison changes the answer there; at 2^30 .. 2^70 a float-typed
+# temporary or an overflow-prone sentinel would.
+MAGNITUDES = (-70, -70, -60, -52, -45, -40, -40, -36, -30, -20, -10, 10, 30, 70)
+
+
+def rescale(rng, case, p=0.6):
+    """with probability p the whole table is multiplied by 2^e, e from MAGNITUDES (recorded as case["mag"])"""
+    if rng.random() < p:
+        e = rng.choice(MAGNITUDES)
+        case["scale"] = case.get("scale", 0) - e
+        case["mag"] = case.get("mag", 0) + e
+    return case
+
+
+def mixmag(rng, case, p=0.15):
+    """mixed magnitudes inside one table: a random third of the entries is multiplied by 2^m (m as large as the
+    53-bit budget of exact sums allows, at most 36): path lengths of order 2^m whose alternatives differ by a few
+    units, i.e. by 2^-m relatively.  Together with rescale() the small differences are far below 1e-12 in absolute
+    terms while the lengths are not."""
+    if case.get("tiefree") or rng.random() >= p:
+        return case
+    N = case["N"]
+    mx = max([1] + [abs(x) for row in case["w"] for x in row])
+    m = min(36, 51 - (N * mx).bit_length())
+    if m < 8:
+        return case
+    case["w"] = [[x << m if rng.random() < 0.34 else x for x in row] for row in case["w"]]
+    case["mixmag"] = m
+    case.pop("metric", None)
+    return case
+
+
 def decorate(rng, case):
-    """scale (dyadic fractions / large magnitudes), ragged rows, landmarks"""
+    """scale (dyadic fractions / large magnitudes / powers of two from MAGNITUDES / mixed magnitudes), ragged rows,
+    landmarks"""
     add_landmarks(rng, case)
     r = rng.random()
     if r < 0.2:
@@ -211,6 +248,8 @@ def decorate(rng, case):
     elif r < 0.27 and not case.get("tiefree"):
         f = 1 << rng.choice([20, 30])
         case["w"] = [[x * f for x in row] for row in case["w"]]
+    mixmag(rng, case)
+    rescale(rng, case)
     if rng.random() < 0.12 and case["N"] > 1:
         # rows other than row 0 may be longer than n_neighbors = neighbors[0].size(): the tail is never read
         for u in range(1, case["N"]):
@@ -240,7 +279,7 @@ def gen_sp_cases(rng, n, sizes, big=()):
         cases.append(decorate(rng, c))
     for N in big:
         c = gen_knn(rng, N, rng.choice([4, 6, 8]), 2, 64, clusters=rng.random() < 0.5)
-        cases.append(add_landmarks(rng, c))
+        cases.append(rescale(rng, mixmag(rng, add_landmarks(rng, c))))
     return cases
 
 
@@ -315,6 +354,7 @@ def heap_aimed_cases(ctx, exes, rng, n_candidates, per_class):
     for i in chosen:
         cands[i]["_events"] = evs[i]
         cands[i]["gen"] = "heap-aimed(" + cands[i]["gen"] + ")"
+        rescale(rng, cands[i])       # the heap situations are those of the integer table: scale-free
     chosen = [cands[i] for i in chosen]
     return chosen, len(cands)
 
@@ -327,7 +367,7 @@ def gen_generic(rng, N, K):
     w = [[int((0.5 + rng.random()) * (1 << 53)) for _ in range(N)] for _ in range(N)]
     c = {"kind": "sp", "gen": "generic-doubles(tolerance)", "N": N, "nbrs": nbrs, "w": w, "scale": 53, "lm": [],
          "tolerance": True}
-    return add_landmarks(rng, c)
+    return rescale(rng, add_landmarks(rng, c))
 
 
 def evaluate_generic(ctx, exes, cases, stats, rel=1e-12):
@@ -380,7 +420,8 @@ def enum_small_cases():
                 w = [[1] * N for _ in range(N)]
                 for (u, v), x in zip(edges, ws):
                     w[u][v] = x
-                out.append({"kind": "sp", "gen": "exhaustive", "N": N, "nbrs": nbrs, "w": w, "scale": 0,
+                e = (0, -70, 0, -40, 70, -52)[len(out) % 6]
+                out.append({"kind": "sp", "gen": "exhaustive", "N": N, "nbrs": nbrs, "w": w, "scale": -e, "mag": e,
                             "lm": list(range(N - 1, -1, -1))})
     return out
 
@@ -448,12 +489,27 @@ def boundary_sp_cases():
     # equal keys in the queue and an improvement that only ties (dist == current: no relaxation)
     out.append({"kind": "sp", "gen": "boundary", "N": 4, "nbrs": [[1, 2], [3, 3], [3, 3], [0, 0]],
                 "w": [[0, 1, 1, 9], [9, 0, 9, 1], [9, 9, 0, 1], [1, 9, 9, 0]], "scale": 0, "lm": [3]})
+    # an improvement that is tiny relative to the lengths involved: 0->1 costs 2^40 + 1, 0->2->1 costs 2^40
+    out.append({"kind": "sp", "gen": "boundary", "N": 3, "nbrs": [[1, 2], [0, 0], [1, 1]],
+                "w": [[0, (1 << 40) + 1, 1 << 39], [1, 0, 1], [1, 1 << 39, 0]], "scale": 0, "lm": [0, 1]})
+    # every one of them again at the two ends of the magnitude range and where weights straddle 1e-12
+    for c in list(out):
+        for e in (-70, -40, 70):
+            out.append(dict(c, nbrs=[list(r) for r in c["nbrs"]], w=[list(r) for r in c["w"]], lm=list(c["lm"]),
+                            scale=-e, mag=e))
     return out
 
 
 # ----------------------------------------------------------------------------------------------- encoding
+def pow2(e):
+    return Fraction(1 << e) if e >= 0 else Fraction(1, 1 << -e)
+
+
 def fhex(w, scale):
-    return float(Fraction(w, 1 << scale)).hex()
+    """the double  w * 2^-scale  (scale may be negative: large magnitudes); exact for |w| < 2^53"""
+    if -(1 << 53) < w < (1 << 53) and -900 < scale < 900:
+        return math.ldexp(float(w), -scale).hex()
+    return float(Fraction(w) * pow2(-scale)).hex()
 
 
 def sp_line(case, threads, trace):
@@ -610,6 +666,7 @@ def parse_obs(tag, scale, rows_expected, cols_expected):
     if r != rows_expected or c != cols_expected or len(toks) != r * c:
         return None, "shape %sx%s with %d entries, expected %dx%d" % (r, c, len(toks), rows_expected, cols_expected)
     mat, problem = [], None
+    unit = pow2(scale)
     for i in range(r):
         row = []
         for j in range(c):
@@ -618,7 +675,7 @@ def parse_obs(tag, scale, rows_expected, cols_expected):
                 row.append(None)
                 continue
             try:
-                f = Fraction(float.fromhex(t)) * (1 << scale)
+                f = Fraction(float.fromhex(t)) * unit
             except (ValueError, OverflowError):
                 row.append("bad:" + t)
                 problem = problem or "entry (%d,%d) is %s" % (i, j, t)
@@ -975,6 +1032,14 @@ def shrink_sp(ctx, exes, case, fails, budget=60):
 
 
 # ----------------------------------------------------------------------------------------------- Isomap stage
+def iso_mag(rng):
+    """binary exponent e of the distance callback of an embed() case: the callback returns T * 2^e.  Scale
+    equivariance (Dijkstra_Scale.v): geodesics scale by 2^e, the matrix handed to the eigensolver by 2^(2e), the
+    embedding by 2^e — all exactly in binary64, so the observations are divided by those powers of two (exact) and
+    judged as before; any absolute constant in the pipeline (relaxation tolerance, eigenvalue cut-off, ...) shows."""
+    return rng.choice(MAGNITUDES) if rng.random() < 0.6 else 0
+
+
 def gen_iso_cases(rng, n_exact, n_tol, n_liso, big=False):
     cases = []
     for i in range(n_exact + n_tol):
@@ -986,7 +1051,7 @@ def gen_iso_cases(rng, n_exact, n_tol, n_liso, big=False):
         cases.append({"kind": "iso", "meth": "iso", "nm": rng.choice(["brute", "vptree", "covertree"]),
                       "em": "dense", "k": rng.randint(3, min(6, N - 1)), "d": rng.randint(1, min(3, dim, N - 2)),
                       "ratio": 1.0, "seed": rng.randrange(1 << 30), "N": N, "T": T, "exact": exact,
-                      "threads": rng.choice(THREADS)})
+                      "threads": rng.choice(THREADS), "mag": iso_mag(rng)})
     for i in range(n_liso):
         N = rng.choice([8, 12, 16, 24, 30])
         pts = gen_points(rng, N, 2, rng.choice([8, 20]))
@@ -998,16 +1063,28 @@ def gen_iso_cases(rng, n_exact, n_tol, n_liso, big=False):
         cases.append({"kind": "iso", "meth": "liso", "nm": rng.choice(["brute", "vptree", "covertree"]),
                       "em": "dense", "k": rng.randint(3, min(6, N - 1)), "d": rng.randint(1, min(2, nl - 1)),
                       "ratio": ratio, "seed": rng.randrange(1 << 30), "N": N, "T": T, "exact": False,
-                      "threads": rng.choice(THREADS)})
+                      "threads": rng.choice(THREADS), "mag": iso_mag(rng)})
     return cases
 
 
 def iso_line(c):
     t = ["ISO", str(c["threads"]), c["meth"], c["nm"], c["em"], str(c["k"]), str(c["d"]), repr(float(c["ratio"])),
          str(c["seed"]), str(c["N"])]
+    e = c.get("mag", 0)
     for row in c["T"]:
-        t += [str(x) for x in row]
+        t += [fhex(x, -e) for x in row] if e else [str(x) for x in row]
     return " ".join(t)
+
+
+def unscale_mat(M, e):
+    """exact division of every entry by 2^e (None if that over/underflows: garbage from a mutated library)"""
+    if M is None or not e:
+        return M
+    try:
+        out = [[math.ldexp(x, -e) for x in row] for row in M]
+    except OverflowError:
+        return None
+    return out
 
 
 def parse_float_mat(tag):
@@ -1084,9 +1161,10 @@ def evaluate_iso(ctx, exes, cases, stats):
                     lm = [int(x) for x in tags.get("lm", (0, 0, []))[2]]
                 except ValueError:
                     lm = []
-            g = {"kind": "sp", "N": N, "nbrs": nbrs, "w": c["T"], "scale": 0, "lm": lm}
+            mag = c.get("mag", 0)
+            g = {"kind": "sp", "N": N, "nbrs": nbrs, "w": c["T"], "scale": -mag, "lm": lm}
             rows = len(lm) if c["meth"] == "liso" else N
-            geo, prob = parse_obs(tags["geo"], 0, rows, N)
+            geo, prob = parse_obs(tags["geo"], -mag, rows, N)
             info = {"case": c, "graph": g, "geo": geo, "tags": tags, "build": b_run, "tag": tag}
             if geo is None or prob:
                 ctx.violation(dict(strip(c), captured_neighbors=nbrs, captured_landmarks=lm),
@@ -1099,7 +1177,7 @@ def evaluate_iso(ctx, exes, cases, stats):
             midx.append(("geo", info))
             finite = all(x is not None for row in geo for x in row)
             if c["meth"] == "iso" and finite and "B0" in tags:
-                B = parse_float_mat(tags["B0"])
+                B = unscale_mat(parse_float_mat(tags["B0"]), 2 * mag)     # B scales by (2^mag)^2
                 if B is None or len(B) != N or any(not math.isfinite(x) for row in B for x in row):
                     ctx.violation(dict(strip(c), captured_neighbors=nbrs),
                                   "matrix handed to the eigensolver is malformed / not finite (%s)" % tag)
@@ -1174,7 +1252,7 @@ def check_embedding(ctx, info, r, stats):
         return
     vals = parse_float_mat(r["tags"]["vals"])
     vecs = parse_float_mat(r["tags"]["vecs"])
-    Y = parse_float_mat(info["tags"]["emb"])
+    Y = unscale_mat(parse_float_mat(info["tags"]["emb"]), c.get("mag", 0))      # Y scales by 2^mag
     if vals is None or vecs is None or Y is None or len(Y) != N or any(len(row) != d for row in Y):
         ctx.violation(strip(c), "embedding has the wrong shape (%s)" % info["tag"])
         return
@@ -1218,13 +1296,117 @@ def check_embedding(ctx, info, r, stats):
                                     d, worst, scale, info["tag"]))
 
 
+# ----------------------------------------------------------------------------------------------- large N
+def big_line(c):
+    return "BIG %d %d %d %d %s" % (c["threads"], c["N"], c["mag"], len(c["lm"]), " ".join(str(v) for v in c["lm"]))
+
+
+def path_k2_case(N, lm, mag):
+    """the graph of the harness command BIG as an ordinary case (small N only): path, k = 2, |a - b|"""
+    nbrs = []
+    for i in range(N):
+        if i == 0:
+            nbrs.append([1, 2])
+        elif i == N - 1:
+            nbrs.append([N - 2, N - 3])
+        else:
+            nbrs.append([i + 1, i - 1] if i % 2 else [i - 1, i + 1])
+    return {"kind": "sp", "gen": "path-k2", "N": N, "nbrs": nbrs, "w": [[abs(a - b) for b in range(N)] for a in range(N)],
+            "scale": -mag, "mag": mag, "lm": list(lm), "metric": True}
+
+
+def gen_big_cases(rng, quick):
+    """ONE large cheap case per run (N = 10^6, k = 2, four landmarks: both ends, the middle, one random) for the
+    recursion-depth / memory obligations of the pipeline, which no small case can exercise, plus a medium one
+    (N = 1500) where the full overload runs too and a small one (N = 40) that also goes through the extracted
+    specification (it validates the closed form |l - j| used for the other two)."""
+    out = []
+    for N, threads in ((40, 3), (1500, 16), (1000000 if quick else 2000000, 3)):
+        lm = [0, N - 1, N // 2, rng.randrange(N)]
+        out.append({"kind": "big", "gen": "path-k2-large", "N": N, "lm": lm, "mag": rng.choice(MAGNITUDES),
+                    "threads": threads})
+    return out
+
+
+def big_row_problem(tag, src, N, mag):
+    """row of source src must be |src - j| * 2^mag: first entry src * 2^mag, then src steps of -2^mag and
+    N - 1 - src steps of +2^mag (run-length encoded by the harness, losslessly)"""
+    if tag is None:
+        return "row missing from the output"
+    nruns, two, toks = tag
+    try:
+        first = float.fromhex(toks[0])
+        runs = [(int(toks[i]), float.fromhex(toks[i + 1])) for i in range(1, len(toks) - 1, 2)]
+    except (ValueError, IndexError, OverflowError):
+        return "unreadable row: %s" % " ".join(toks[:6])
+    u = math.ldexp(1.0, mag)
+    want = [(n, d) for n, d in ((src, -u), (N - 1 - src, u)) if n > 0]
+    if first != src * u or runs != want or len(toks) != 1 + 2 * len(runs):
+        return "geodesics from sample %d are not |%d - j| * 2^%d: first entry %r (expected %r), steps %s (expected %s)" % (
+            src, src, mag, first, src * u, runs[:4], want)
+    return None
+
+
+def evaluate_depth(ctx, exes, cases, stats):
+    """harness command BIG in both heap builds; crash (stack overflow, out of memory) / hang / wrong row =
+    violation with that input"""
+    if not cases:
+        return 0
+    n_eval = 0
+    lines = [big_line(c) for c in cases]
+    with ThreadPoolExecutor(max_workers=2) as pool:
+        outs = list(pool.map(lambda b: run_harness(ctx, exes.sp[b], lines, timeout=150 if ctx.quick else 900), BUILDS))
+    for b, res in zip(BUILDS, outs):
+        for c, r in zip(cases, res):
+            N, mag = c["N"], c["mag"]
+            if r.get("skipped"):
+                stats["skipped_runs"] += 1
+                continue
+            if r["crash"] or r["x"]:
+                ctx.violation(strip(c), "is_connected / compute_shortest_distances_matrix abort, hang or throw on the path "
+                                        "graph with N = %d, k = 2 (%s build, %d threads, thread stack 8 MiB): %s" % (
+                                            N, b, c["threads"], str(r["crash"] or r["x"])[:500]))
+                continue
+            conn = r["tags"].get("conn")
+            if conn is None or conn[2] != ["0x1p+0", "0x0p+0"]:
+                ctx.violation(strip(c), "is_connected is wrong on the path graph with N = %d (expected true) or on the "
+                                        "forward-only chain (expected false): %s (%s build)" % (
+                                            N, conn[2] if conn else "missing", b))
+            probs = []
+            ls = r["tags"].get("lshape")
+            if ls is None or [float.fromhex(x) if x[:2] == "0x" else -1 for x in ls[2]] != [len(c["lm"]), N]:
+                probs.append("landmark matrix has the wrong shape %s" % (ls[2] if ls else "(missing)"))
+            for i, src in enumerate(c["lm"]):
+                pr = big_row_problem(r["tags"].get("l%d" % i), src, N, mag)
+                n_eval += 1
+                stats["large_rows_checked"] += 1
+                if pr:
+                    probs.append("landmark overload, row %d: %s" % (i, pr))
+            if N <= 4000:
+                fsh = r["tags"].get("fshape")
+                if fsh is None or [float.fromhex(x) if x[:2] == "0x" else -1 for x in fsh[2]] != [N, N]:
+                    probs.append("full matrix has the wrong shape %s" % (fsh[2] if fsh else "(missing)"))
+                for src in range(N):
+                    pr = big_row_problem(r["tags"].get("f%d" % src), src, N, mag)
+                    stats["large_rows_checked"] += 1
+                    if pr:
+                        probs.append("first overload, row %d: %s" % (src, pr))
+                        break
+                n_eval += 1
+            if probs:
+                ctx.violation(strip(c), "path graph with N = %d, k = 2, distance |a - b| * 2^%d (%s build, %d threads): %s"
+                              % (N, mag, b, c["threads"], "; ".join(probs[:3])))
+    return n_eval
+
+
 # ----------------------------------------------------------------------------------------------- main
 def new_stats():
     return {"model_rows": 0, "traces": 0, "trace_agree": 0, "trace_disagree": 0, "trace_calls": 0,
             "skipped_runs": 0, "big_rows_checked": 0, "tolerance_matrices": 0, "old_f4_model_differs": 0, "iso": {}, "iso_exceptions": 0,
             "iso_disconnected": 0, "B_exact": 0, "B_tolerance": 0, "emb_checked": 0, "emb_degenerate": 0,
             "emb_oracle_bad": 0, "emb_worst_rel": 0.0, "oracle_contract_worst": 0.0,
-            "heap_decrease_key_situations": {k: 0 for k in HEAP_CLASSES}, "heap_aimed_candidates": 0}
+            "heap_decrease_key_situations": {k: 0 for k in HEAP_CLASSES}, "heap_aimed_candidates": 0,
+            "large_rows_checked": 0}
 
 
 def build_all(ctx, with_iso_fib=True):
@@ -1299,7 +1481,15 @@ def run(ctx):
         c.setdefault("gen", "corpus")
         c["gen"] = "corpus"
         cases.append(c)
+        if c.get("kind", "sp") == "sp":
+            e = MAGNITUDES[len(cases) % len(MAGNITUDES)]
+            cases.append(dict(c, scale=c.get("scale", 0) - e, mag=e))
+        elif c.get("kind") == "iso" and not c.get("mag"):
+            cases.append(dict(c, mag=MAGNITUDES[len(cases) % len(MAGNITUDES)]))
     cases += boundary_sp_cases()
+    depth_cases = gen_big_cases(rng, quick)
+    # the small member of the large-N family goes through the extracted specification like any other graph
+    cases.append(path_k2_case(depth_cases[0]["N"], depth_cases[0]["lm"], depth_cases[0]["mag"]))
     sizes = [1, 2, 3, 3, 4, 4, 5, 5, 6, 6, 7, 8, 8, 10, 12, 16, 16, 24, 32]
     big_cases = []
     if quick:
@@ -1310,8 +1500,8 @@ def run(ctx):
         cases += enum_small_cases()
         iso_cases = gen_iso_cases(rng, 200, 60, 120, big=True)
         for N in (200, 256, 400):
-            big_cases.append(add_landmarks(rng, gen_knn(rng, N, rng.choice([6, 8, 10]), 2, 128,
-                                                        clusters=rng.random() < 0.5)))
+            big_cases.append(rescale(rng, add_landmarks(rng, gen_knn(rng, N, rng.choice([6, 8, 10]), 2, 128,
+                                                                     clusters=rng.random() < 0.5))))
     aimed, ncand = heap_aimed_cases(ctx, exes, rng, 1500 if quick else 15000, 12 if quick else 120)
     stats["heap_aimed_candidates"] += ncand
     cases += aimed
@@ -1326,7 +1516,8 @@ def run(ctx):
         # the verdict (a concrete failing input) is already there; the remaining stages call the same routine and
         # would only repeat it (and, under a hang, cost a timeout each)
         ctx.note("later stages skipped: a violation with a replay was already recorded")
-        iso_cases, big_cases, generic_cases = [], [], []
+        iso_cases, big_cases, generic_cases, depth_cases = [], [], [], []
+    n += evaluate_depth(ctx, exes, depth_cases, stats)
     n += evaluate_iso(ctx, exes, iso_cases, stats)
     n += evaluate_big(ctx, exes, big_cases, stats)
     n += evaluate_generic(ctx, exes, generic_cases, stats)
@@ -1359,7 +1550,7 @@ def run(ctx):
             n += evaluate_iso(ctx, exes, gen_iso_cases(rng, 60, 20, 40), stats)
     ctx.note("wall clock: coq %.0f s, extraction %.0f s, all builds done after %.0f s, evaluation %.0f s" % (
         t_coq, t_extract, t_build, time.time() - t0 - t_build))
-    allc = sp_cases + iso_cases + big_cases + generic_cases
+    allc = sp_cases + iso_cases + big_cases + generic_cases + depth_cases
     for c in allc:
         g = c.get("gen", c["kind"] + ":" + c.get("meth", ""))
         hist[g] = hist.get(g, 0) + 1
@@ -1404,7 +1595,9 @@ def replay(ctx, case):
     c = dict(case)
     c.pop("captured_neighbors", None)
     c.pop("captured_landmarks", None)
-    if c.get("kind", "sp") == "sp":
+    if c.get("kind") == "big":
+        evaluate_depth(ctx, exes, [c], stats)
+    elif c.get("kind", "sp") == "sp":
         evaluate_sp(ctx, exes, [c], stats, shrink=False)
         obs = observe_sp(ctx, exes, [c], trace=False)[0]
         for key in sorted(obs, key=str):
